@@ -11,7 +11,8 @@ import time
 
 PROPS_MODULE = "NessaiVerif.Props.C01"
 MANIFEST = dict(
-    text="Lean theorems over a literal model of NestedSampler.populate_live_points / yield_sample / insert_live_point "
+    text="TRANSLATION TIE: NestedSampler.insert_live_point is translated statement by statement from the current source (harness/pyarr2lean.py -> Gen/LiveSetTx.lean, Python/NumPy indexing semantics of Model/PySlice.lean validated against NumPy on every run) and theorem insert_live_point_source_eq_model proves the generated definition equal to the model's slice program for every live set and point (same result or same exception). "
+         "Lean theorems over a literal model of NestedSampler.populate_live_points / yield_sample / insert_live_point "
          "(the searchsorted + slice-shift program, including its failure at index 0) / consume_sample / finalise, for every "
          "nlive >= 1, every initial draw stream, every candidate stream and every number of iterations (invariant + induction "
          "over steps): exactly n live points in ascending likelihood order; the removed point is the head and a minimum; the "
@@ -42,7 +43,7 @@ MANIFEST = dict(
          "only across checkpoints written at iteration boundaries — mid-iteration checkpoints (checkpoint_on_training inside "
          "consume_sample: F25, reproduced here as a known finding; signal handler inside consume_sample: F4/C13) are "
          "counter-examples, not exclusions.",
-    technique="Lean 4 proof (loop invariant, induction over iterations) + differential correspondence with the real sampler + trace replay",
+    technique="Lean 4 proof (loop invariant, induction over iterations) + source-to-Lean translation of insert_live_point re-proved equal to the model on every run + differential correspondence with the real sampler + trace replay",
     ref="5/C01")
 
 _T = {}
